@@ -669,6 +669,8 @@ class Engine:
         self._mul_uf = None
         self.mulmode = "z3"  # 'uf': symbolic*symbolic products are uninterpreted (LRA+UF)
         self.path_hooks = []
+        self.witnesses = []
+        self.witness_limit = 2
 
     # -- per-path state
     def _reset_path(self):
@@ -964,6 +966,8 @@ class Engine:
                 harness(self, *args)
                 self.stats.inc("paths")
                 self.stats.inc("decisions", len(self.trace))
+                if len(self.witnesses) < self.witness_limit:
+                    self._witness()
             except Abort:
                 self.stats.inc("aborted")
             except HarnessError as ex:
@@ -975,6 +979,31 @@ class Engine:
             finally:
                 self.solver.pop()
         return self
+
+    def _witness(self):
+        """a concrete input that drives the real code down this (fully proved) path: replayed on
+        the real numpy/scipy by the runner as a differential check of the model library.
+        Dyadic values in a small range are requested so that the float replay is exact."""
+        cons = []
+        terms = list(self.inputs.values()) + [r for (_, _, r) in self.uflog][:40]
+        for v in terms:
+            if z3.is_real(v):
+                cons += [z3.IsInt(v * 16), v >= -64, v <= 64]
+        old = self.nra_timeout_ms
+        self.solver.set("timeout", 3000)
+        self.nra_timeout_ms = 3000
+        try:
+            r = self.check(*cons)
+            dy = True
+            if r != z3.sat:
+                r = self.check()
+                dy = False
+            if r == z3.sat:
+                c = self._cex(self.model(), "witness", dict(dyadic=dy))
+                self.witnesses.append(c)
+        finally:
+            self.solver.set("timeout", self.timeout_ms)
+            self.nra_timeout_ms = old
 
     def _crash(self, ex):
         self.stats.inc("crashed")
@@ -994,7 +1023,7 @@ class Engine:
             self.unknown.append(("crash", site))
 
     def summary(self):
-        return dict(stats=dict(self.stats), obligations={k: {kk: vv for kk, vv in v.items()} for k, v in self.obl.items()}, unknown=self.unknown[:20], notes=self.notes, samples=self.samples, errors=self.errors)
+        return dict(stats=dict(self.stats), obligations={k: {kk: vv for kk, vv in v.items()} for k, v in self.obl.items()}, unknown=self.unknown[:20], notes=self.notes, samples=self.samples, errors=self.errors, witnesses=self.witnesses)
 
 
 def _site(ex):
